@@ -280,6 +280,45 @@ func c11case(c *engine.Ctx, env *zygo.Zlisp, v c11val, class string) {
 	c.Outcome(class + "|" + j.Short())
 }
 
+// c11interleaved: encode a, encode b, and only then decode the bytes obtained for a (encodings must not share storage)
+func c11interleaved(c *engine.Ctx, env *zygo.Zlisp, only string) {
+	vals := []c11val{c11int(-1), c11int(math.MaxInt64), c11float(2.5), c11str("a\"b"), c11str("é\n"), c11str(""), c11bool(true), c11nil(),
+		c11arr(c11int(1), c11str("x")), c11arr(),
+		c11hash("hash", false, []string{"a", "b"}, []c11val{c11int(1), c11str("one")}),
+		c11hash("ranch", false, []string{"a", "b"}, []c11val{c11int(2), c11str("two")}),
+		c11hash("ranch", false, []string{"b", "a", "c"}, []c11val{c11str("three"), c11int(3), c11arr(c11int(3))}),
+		c11hash("hash", false, nil, nil)}
+	for _, codec := range []string{"msgpack", "json"} {
+		for _, a := range vals {
+			for _, b := range vals {
+				w := "Q|" + codec + "|" + a.spec + "|" + b.spec
+				if !(only == "" && c.Mine() || only == w) {
+					continue
+				}
+				c.Begin(w)
+				va, vb := a.mk(env), b.mk(env)
+				env.AddGlobal("qa", va)
+				env.AddGlobal("qb", vb)
+				r := zy.Eval(env, "(let [ea ("+codec+" qa) eb ("+codec+" qb) ec ("+codec+" qb)] (list (un"+codec+" ea) (un"+codec+" eb) (un"+codec+" ea)))")
+				if r.Panic != "" {
+					c.Violation("panic", "C11/panic/interleaved", w, r.Panic)
+					continue
+				}
+				if !r.OK() {
+					// a value that does not round-trip on its own is reported by the single-value cases
+					c.Count("interleaved_not_decodable", 1)
+					continue
+				}
+				l, _ := zygo.ListToArray(r.Sexp)
+				if len(l) != 3 || !equalRecords(va, l[0]) || !equalRecords(vb, l[1]) || !equalRecords(va, l[2]) {
+					c.Violation("interleaved-roundtrip", "C11/interleaved-roundtrip/"+codec, w, fmt.Sprintf("a = %s, b = %s: after encoding a, then b (twice), decoding the three byte strings a, b, a gives %s", clipS(va.SexpString(nil), 80), clipS(vb.SexpString(nil), 80), clipS(r.Sexp.SexpString(nil), 200)))
+				}
+				c.Outcome(w)
+			}
+		}
+	}
+}
+
 func c11all(thorough bool, f func(v c11val, class string) bool) {
 	scal := c11scalars(thorough)
 	strs := c11strings(thorough)
@@ -384,7 +423,7 @@ func init() {
 	engine.Register(&engine.Check{
 		ID:    "C11",
 		Level: "exploration",
-		Rule: "values: nil, bools, 18 boundary ints, ~190 finite floats, 1-char strings over U+0000..U+20FF + every 257th scalar above + representatives [thorough: all Unicode scalars], all 2-char strings over a 21-char adversarial pool; shapes: scalar, arrays (1, 2 elements, nested), hashes and named records with symbol keys (1 key x every scalar, 3 keys in all 6 orders, nested two levels, awkward field names), hashes with string keys; " +
+		Rule: "values: nil, bools, 18 boundary ints, ~190 finite floats, 1-char strings over U+0000..U+20FF + every 257th scalar above + representatives [thorough: all Unicode scalars], all 2-char strings over a 21-char adversarial pool; interleaving: encode a, encode b twice, then decode a, b, a for all ordered pairs of 14 values; shapes: scalar, arrays (1, 2 elements, nested), hashes and named records with symbol keys (1 key x every scalar, 3 keys in all 6 orders, nested two levels, awkward field names), hashes with string keys; " +
 			"(unjson (json v)) and (unmsgpack (msgpack v)) must equal v incl. record type names and key order at every level; the bytes of (json v) must be accepted by encoding/json and denote the same data",
 		Assumptions: []string{"NaN/Inf are excluded (JSON has no spelling for them)", "for string-keyed hashes only the JSON text is judged (decoding yields symbol keys)"},
 		Run: func(c *engine.Ctx) {
@@ -396,10 +435,18 @@ func init() {
 				}
 				return !c.Expired()
 			})
+			c11interleaved(c, env, "")
 		},
 		Replay: func(c *engine.Ctx, w string) {
 			env := zy.New(true)
 			defer env.Close()
+			if strings.HasPrefix(w, "Q|") {
+				c11interleaved(c, env, w)
+				for i := range c.Viol {
+					c.Viol[i].Key = "*"
+				}
+				return
+			}
 			for _, th := range []bool{false, true} {
 				found := false
 				c11all(th, func(v c11val, class string) bool {
